@@ -12,4 +12,5 @@ one() {
   rm -rf $T
 }
 export -f one
+if [ $# = 0 ]; then set -- /verif/refactorings/*/patch.diff; fi
 printf "%s\n" "$@" | xargs -P 8 -I{} bash -c 'one {}'
